@@ -1,6 +1,7 @@
 import SSVerif.Model.Ranges
 import SSVerif.Model.RangesHmm
 import SSVerif.Model.RangesSemi
+import SSVerif.Model.CmnRepr
 import Driver.Util
 /-! driver sub-command `c18`: replays the integer ops of harness/h_c18.c (`int` mode) on the model -/
 namespace Driver.C18
@@ -472,6 +473,91 @@ def opArun (a : List Int) : Option String := do
                 if fin.fr != hm.map (·.2) ∧ (fin.fr.zip (hm.map (·.2))).any (fun q => q.2 < 0 ∧ q.1 ≥ 0) then "arun.phone-entered" else "arun.no-new-phone" ]
   some (s!"A {fin.nren} | {showInts per} | {showInts fin.bests}" ++ " #" ++ sepBy "," tags)
 
+/-! ### `cmnr`: CMN accumulator state machine (`SSVerif.CmnRepr`, exact rationals) -/
+namespace Cmnr
+open SSVerif.CmnRepr
+
+/-- lowest terms; `num` when the denominator is 1, else `num/den` (den > 0) -/
+def showRat (r : Rat) : String := if r.den = 1 then toString r.num else s!"{r.num}/{r.den}"
+
+def showSt (s : SSVerif.CmnRepr.St) : String :=
+  s!"{s.nframe} | {sepBy " " (s.mean.map showRat)} | {sepBy " " (s.sum.map showRat)}"
+
+/-- split `n` integers off the front of the word list -/
+def takeInts (n : Nat) (ws : List String) : Option (List Int × List String) :=
+  if ws.length < n then none else (ints (ws.take n)).map fun l => (l, ws.drop n)
+
+def takeNat (ws : List String) : Option (Nat × List String) :=
+  match ws with
+  | w :: rest => (parseInt w).bind fun i => if i < 0 then none else some (i.toNat, rest)
+  | [] => none
+
+def toRats (l : List Int) : List Rat := l.map fun (i : Int) => ((i : Int) : Rat)
+
+def addTags (acc : List String) (tags : List String) : List String :=
+  tags.foldl (fun a t => if a.contains t then a else a ++ [t]) acc
+
+structure Acc where
+  st : SSVerif.CmnRepr.St
+  prev : String := ""
+  outs : List String := []
+  tags : List String := []
+
+def Acc.push (a : Acc) (tok : String) (s : SSVerif.CmnRepr.St) (tags : List String) : Acc :=
+  { st := s, prev := tok, outs := a.outs ++ [showSt s], tags := addTags a.tags tags }
+
+/-- token loop (`fuel` ≥ number of words: every token consumes at least one word) -/
+def run (n : Nat) : Nat → Acc → List String → Option Acc
+  | _, a, [] => some a
+  | 0, _, _ :: _ => none
+  | fuel + 1, a, "A" :: rest => do
+    if n = 0 then none
+    let (x, rest) ← takeInts n rest
+    let xr := toRats x
+    let s' := accFrame a.st xr
+    let tags :=
+      if skipped xr then ["cmnr.frame-skipped(c0<0)"]
+      else "cmnr.frame-accumulated" :: (if a.st.nframe + 1 > (cmnWinHwm : Int) then ["cmnr.frame-shiftwin"] else [])
+    run n fuel (a.push "A" s' tags) rest
+  | fuel + 1, a, "S" :: rest => do
+    let (k, rest) ← takeNat rest
+    let (v, rest) ← takeInts k rest
+    let s' := setRepr a.st (toRats v)
+    let tags :=
+      [ if k < n then "cmnr.short-import" else if k = n then "cmnr.full-import" else "cmnr.over-long-import" ]
+      ++ (if k = 0 then ["cmnr.empty-import"] else [])
+      ++ (if a.st.sum.any (· ≠ 0) then ["cmnr.import-after-audio"]
+          else if a.st = init n then ["cmnr.import-on-fresh-state"] else [])
+    run n fuel (a.push "S" s' tags) rest
+  | fuel + 1, a, "U" :: rest =>
+    let s' := update a.st
+    let tags :=
+      if a.st.nframe ≤ 0 then ["cmnr.update-nframe<=0"]
+      else (if a.prev = "S" then "cmnr.update-right-after-import" else "cmnr.update-after-audio")
+        :: (if a.st.nframe > (cmnWinHwm : Int) then ["cmnr.update-decay"] else [])
+    run n fuel (a.push "U" s' tags) rest
+  | fuel + 1, a, "B" :: rest => do
+    let (m, rest) ← takeNat rest
+    if n = 0 ∧ m > 0 then none
+    let (v, rest) ← takeInts (m * n) rest
+    let frames := (chunks n m v).map toRats
+    let s' := batch a.st frames
+    let tags :=
+      if m = 0 then ["cmnr.batch-empty"]
+      else "cmnr.batch" :: (if frames.all skipped then ["cmnr.batch-all-frames-skipped"] else [])
+    run n fuel (a.push "B" s' tags) rest
+  | _, _, _ :: _ => none
+
+/-- `cmnr <veclen> <tok>*` from `init veclen`; tokens `A x_0 … x_{veclen-1}` (one `cmn_live` frame), `S k v_1 … v_k`
+(`cmn_set_repr` with k values), `U` (`cmn_live_update`), `B n` + n·veclen ints (batch `cmn()`, varnorm 0).  One line:
+`c` then ` ; nframe | mean… | sum…` after every token, then the branch tags. -/
+def op (ws : List String) : Option String := do
+  let (n, rest) ← takeNat ws
+  let a ← run n (rest.length + 1) { st := init n } rest
+  some ("c" ++ String.join (a.outs.map (" ; " ++ ·)) ++ " #" ++ sepBy "," a.tags)
+
+end Cmnr
+
 def step (s : St) (ws : List String) : St × String :=
   match ws with
   | [] => (s, "")
@@ -504,6 +590,7 @@ def step (s : St) (ws : List String) : St × String :=
   | "enter" :: rest => (s, ((ints rest).bind opEnter).getD "bad-op")
   | "arun" :: rest => (s, ((ints rest).bind opArun).getD "bad-op")
   | "semif" :: rest => (s, ((ints rest).bind (opSemif s)).getD "bad-op")
+  | "cmnr" :: rest => (s, (Cmnr.op rest).getD "bad-op")
   | _ => (s, "bad-op")
 
 def main : IO Unit := runLoop step {}
